@@ -18,7 +18,7 @@ import nlgen, c19gen
 
 CHAIN_RE = re.compile(r'(_(\d+|slk|equ)_)*\Z')
 TOKSTART_RE = re.compile(r'_[^_]+_')
-N_THEOREMS = 47
+N_THEOREMS = 48
 
 
 def hx(s):
